@@ -23,7 +23,7 @@ LEVEL_NOTE = ("Trusted: SimNet FIFO model, reference cost evaluator. Snapshots a
 RULE = ("case = DCOP + algorithm + parameters + schedule + seed; non-trivial = >=1 cycle in which some variable "
         "changed value; distinct by sha1(case)")
 ASSUMPTIONS = ["costs are ints or dyadic floats (exact sums)", "stop_cycle 3..10 bounds each run"]
-BUDGET = {"quick": {"workers": 8, "examples": 450, "seconds": 45},
+BUDGET = {"quick": {"workers": 8, "examples": 1000, "seconds": 45},
           "thorough": {"workers": 16, "examples": 20000, "seconds": 600}}
 
 
@@ -64,7 +64,7 @@ def case_strategy(tier):
     only = os.environ.get("VF_ALGOS")  # development aid: restrict the algorithms explored
     if only:
         return cases(tuple(only.split(",")))
-    return st.one_of(cases(), cases(), cases(), tie_cases())
+    return st.one_of(cases(), cases(), tie_cases())
 
 
 class Analysis:
